@@ -76,7 +76,14 @@ func solveOne(o *Obligation, dir string, idx int, quickSec, fullSec int) {
 	r := runSolver(ctx, solvers[0], file, quickSec)
 	outputs = append(outputs, fmt.Sprintf("[%s %.2fs] %s", r.Solver, r.Seconds, r.Result))
 	total := r.Seconds
+	if r.Result == "sat" && o.smtFull != "" {
+		// the pruned query has a model: decide on the full assumption set
+		r.Result = "unknown"
+	}
 	if !definite(r) && !o.Cover {
+		if o.smtFull != "" {
+			os.WriteFile(file, []byte(o.smtFull), 0o644)
+		}
 		rctx, cancel := context.WithCancel(ctx)
 		ch := make(chan solveResult, len(solvers)+2)
 		n := len(solvers)
@@ -149,6 +156,12 @@ func firstLines(s string, n int) string {
 func solveAll(obls []*Obligation, dir string, workers, quickSec, fullSec int) {
 	for _, o := range obls {
 		o.smtText = o.SMT(true)
+		if !o.Cover {
+			full := o.SMTFull(true)
+			if full != o.smtText {
+				o.smtFull = full
+			}
+		}
 		if !o.Cover && strings.Contains(o.smtText, "(forall ") {
 			nq := o.smtVariant(false, true)
 			if nq != o.smtText {
